@@ -341,7 +341,7 @@ def expand(template_text, backend="verus"):
             # options: trailing words that are known option names
             words = rest.split()
             optwords = []
-            while words and re.match(r"^(nopub|keepattrs|from_core|derive\+?=.*|drop=.*|as=.*|strip_tests)$", words[-1]):
+            while words and re.match(r"^(nopub|keepattrs|from_core|derive\+?=.*|drop=.*|as=.*|strip_tests|optional)$", words[-1]):
                 optwords.insert(0, words.pop())
             selector = " ".join(words)
             opts = parse_opts(optwords)
@@ -369,7 +369,14 @@ def expand(template_text, backend="verus"):
                 gi.gen_end_line = cur_line
                 exp.items.append(gi)
                 i += 1; continue
-            sf, it = select(selector)
+            try:
+                sf, it = select(selector)
+            except LostAnchor:
+                # `optional`: a helper that the code under contract may stop using; its absence is recorded, not an error (plain items only)
+                if "optional" in opts and cmd == "item":
+                    exp.drops.append("optional item absent in this tree: " + selector)
+                    i += 1; continue
+                raise
             toks = sf.toks
             gi.file = sf.rel; gi.kind = it.kind; gi.name = it.name or " ".join(it.header[:6])
             gi.src_line = sf.line_of(it.core)
